@@ -214,7 +214,12 @@ def evaluate_case(case, wd, check_artifacts=True, stats=None):
                 for name in order:
                     if name not in case.files:
                         continue  # core:/vendor: package
+                    # where the artefact of `../x.pn` belongs is C18's business (inside the
+                    # out-dir); here either place will do
                     path = os.path.join("out", name[:-3] + ".pn.ll")
+                    inside = os.path.join("out", *[c for c in (name[:-3] + ".pn.ll").split("/") if c not in ("..", ".", "")])
+                    if not os.path.isfile(os.path.join(wd, path)) and os.path.isfile(os.path.join(wd, inside)):
+                        path = inside
                     try:
                         with open(os.path.join(wd, path)) as f:
                             irs[name] = f.read()
